@@ -24,7 +24,7 @@ Flatten(sqs, i) == IF i > Len(sqs) THEN <<>> ELSE sqs[i] \o Flatten(sqs, i + 1)
 \* the lines of one case: for every call within the budget, the printed parameters and the value
 CaseLines(c) ==
   Flatten([j \in 1..Len(c.calls) |->
-             LET r == Ref(ProgOf(c), c.calls[j].args) IN IF r.ok THEN Lines(r) ELSE <<>>], 1)
+             LET r == Ref(ProgOf(c), c.calls[j].args) IN IF r.ok THEN Lines(r, c.f.unit) ELSE <<>>], 1)
 Expected == Flatten([i \in 1..Len(Row.fns) |-> CaseLines(Row.fns[i])], 1)
 
 \* the expectation the generator recorded is the specification's
@@ -32,7 +32,7 @@ ExpectationIsSpec ==
   l > 1 => \A i \in 1..Len(Row.fns) : \A j \in 1..Len(Row.fns[i].calls) :
              LET c == Row.fns[i]
                  r == Ref(ProgOf(c), c.calls[j].args)
-             IN c.calls[j].ok = r.ok /\ (r.ok => c.calls[j].lines = Lines(r))
+             IN c.calls[j].ok = r.ok /\ (r.ok => c.calls[j].lines = Lines(r, c.f.unit))
 \* every build on every back end prints what the recursion prints and returns
 PrintedOK == l > 1 => \A k \in 1..Len(Row.runs) : Row.runs[k].out = Expected
 AllConsumed == TLCGet("stats").diameter - 1 = N
